@@ -148,6 +148,17 @@ reg(Entry("get_apid_from_raw_space_packet", "ccsds", lambda b, c: _sp().get_apid
           head=lambda r, c: 6, obs=lambda x: int(x)))
 
 
+def _st_space_packet():
+    return st.tuples(st.integers(0, 7), st.integers(0, 1), st.integers(0, 1), uint(11), st.integers(0, 3), uint(14), st.binary(min_size=1, max_size=24)).map(
+        lambda t: {"cfg": {}, "raw": _hx(RC.sp_header(t[0], t[1], t[2], t[3], t[4], t[5], len(t[6]) - 1) + t[6])}
+    )
+
+
+# a whole space packet decoded through its header: the reported length is the packet length (header + data field)
+reg(Entry("SpacePacketHeader.unpack(packet)", "ccsds", lambda b, c: _sp().SpacePacketHeader.unpack(b), _st_space_packet, delimited=False, head=lambda r, c: 6, len_fields=lambda r, c: [(4, 2)],
+          obs=_obs_sp_header, replen=lambda o, c: int(o.packet_len)))
+
+
 def _st_sp_stream():
     """A stream of space packets plus the ids to look for (parse_space_packets never raises)."""
     pkt = st.tuples(uint(11), uint(14), hexblob(12, 1)).map(lambda t: RC.sp_header(0, 1, 1, t[0], 3, t[1], len(t[2]) // 2 - 1) + bytes.fromhex(t[2]))
@@ -362,7 +373,7 @@ def _obs_field(x):
 
 
 reg(Entry("UnsignedByteField.from_bytes", "fields", lambda b, c: _util().UnsignedByteField.from_bytes(b),
-          lambda: _w.flatmap(lambda n: _just_raw(st.binary(min_size=n, max_size=n))), delimited=False, head=lambda r, c: len(r), obs=_obs_field))
+          lambda: _w.flatmap(lambda n: _just_raw(st.binary(min_size=n, max_size=n))), delimited=False, head=lambda r, c: len(r)))  # whole-buffer decoder: not a self-delimiting unit, no obs
 reg(Entry("ByteFieldGenerator.from_bytes", "fields", lambda b, c: _util().ByteFieldGenerator.from_bytes(c["w"], b),
           lambda: _w.flatmap(lambda n: st.binary(min_size=n, max_size=n).map(lambda b: {"cfg": {"w": n}, "raw": _hx(b)})),
           cfg=lambda: st.fixed_dictionaries({"w": _w}), head=lambda r, c: len(r), obs=_obs_field, replen=lambda o, c: int(o.byte_len)))
